@@ -321,6 +321,14 @@ def run(ck):
             off, on, cu = a["results"]
             stats["statements"] += 1
             if not on.get("bound") and on["class"] != "timeout":
+                if on["class"] == "panic":
+                    # neither accepted nor rejected: binding or planning panicked (a panic in the planner is outside
+                    # Database::run's catch_unwind: it takes the calling session down)
+                    stats["planning_panics"] = stats.get("planning_panics", 0) + 1
+                    ck.report("plan:planning-panics:" + vlib.slug(on.get("msg", ""))[:50], "binding / planning `%s` panics (%s): the statement is neither rejected with an error nor planned" % (c["sql"], on.get("msg", "")[:120]),
+                              replay={"case": c, "engine": eng, "config": extra, "outcome": on,
+                                      "requests": [{"id": "replay", "engine": eng, "setup": c["setup"] + extra, "queries": [{"sql": c["sql"], "opt": "on", "plans": True}]}]})
+                    continue
                 stats["bind_rejected"] += 1     # the binder rejected it (or a SET/PRAGMA): not an accepted statement
                 continue
             distinct.add(c["sql"])
